@@ -89,8 +89,8 @@ func NewCtx(prop, tier string, seed int64, level string) *Ctx {
 func (c *Ctx) Quick() bool { return c.Tier != "thorough" }
 
 func (c *Ctx) Assume(s ...string) { c.assumptions = append(c.assumptions, s...) }
-func (c *Ctx) Rule(s string)       { c.rule = append(c.rule, s) }
-func (c *Ctx) Note(s string)       { c.mu.Lock(); c.notes = append(c.notes, s); c.mu.Unlock() }
+func (c *Ctx) Rule(s string)      { c.rule = append(c.rule, s) }
+func (c *Ctx) Note(s string)      { c.mu.Lock(); c.notes = append(c.notes, s); c.mu.Unlock() }
 func (c *Ctx) Extra(k string, v any) {
 	c.mu.Lock()
 	c.extra[k] = v
